@@ -58,6 +58,7 @@ type replayer struct {
 	parseVal map[string]*big.Int
 	parseSigned map[string]bool
 	pkg    *types.Package
+	unbuildable string // an input the replay cannot construct (non-nil value of an interface type without a known implementation)
 }
 
 func parseSMTValue(s string) (*big.Int, bool, bool) {
@@ -295,6 +296,10 @@ func Replay(w *World, r *FnResult, o *Obligation, repo, tmp string) *ReplayResul
 	for i, p := range fn.Params {
 		cvs = append(cvs, rp.cv(p.Type(), e.Replay.Params[i], 0))
 	}
+	if rp.unbuildable != "" {
+		res.Note = "counterexample not replayable: " + rp.unbuildable
+		return res
+	}
 	src := rp.testSource(fn, cvs)
 	res.TestSource = src
 	// run through overlay
@@ -518,6 +523,9 @@ func (rp *replayer) cv(t types.Type, name string, depth int) *CV {
 	case *types.Interface:
 		if hint := rp.w.ifaceHint(name, t); hint != nil {
 			return &CV{K: "iface", T: t, Dyn: hint, Elem: rp.cv(hint, name, depth+1)}
+		}
+		if isnil, have := rp.bools[strings.TrimSuffix(name, ".")+".isnil"]; have && !isnil && rp.unbuildable == "" {
+			rp.unbuildable = fmt.Sprintf("input %s must be a non-nil %s, which the replay cannot construct", strings.TrimSuffix(name, "."), types.TypeString(t, nil))
 		}
 		return &CV{K: "zero", T: t}
 	}
